@@ -182,6 +182,7 @@ func cmdCheck(args []string) int {
 		}
 		eng.initIntrinsics()
 		eng.initIntrinsics2()
+		eng.initThreadIntrinsics()
 		if err := eng.load(); err != nil {
 			fmt.Fprintf(os.Stderr, "ERROR: load: %v\n", err)
 			return 2
@@ -627,6 +628,7 @@ func cmdReplay(args []string) int {
 	eng := &Engine{spec: spec, verifDir: vd, logw: os.Stderr}
 	eng.initIntrinsics()
 	eng.initIntrinsics2()
+	eng.initThreadIntrinsics()
 	if err := eng.load(); err != nil {
 		fmt.Fprintln(os.Stderr, err)
 		return 2
